@@ -568,7 +568,8 @@ Section Reach.
   | EvNewObs (k : rkind) (hasj : bool)    (* DurationObserver / IsReadyObserver(dispatcher, feature_types=...) *)
   | EvScorer (si : nat)                   (* scorer(dispatcher) *)
   | EvRule (r : rule) (draw : nat)        (* a built-in rule *)
-  | EvObsRule (si : nat).                 (* score_based_rule(scorer)(dispatcher) *)
+  | EvObsRule (si : nat)                  (* score_based_rule(scorer)(dispatcher) *)
+  | EvForget (si : nat).                  (* the scorer is used on another dispatcher in between *)
 
   Definition run_rev (w : rwld) (e : rev) : rwld :=
     match e with
@@ -579,6 +580,7 @@ Section Reach.
     | EvScorer si => fst (scorer_call I si w)
     | EvRule r dr => fst (run_rule I r dr w)
     | EvObsRule si => fst (rule_mwkr_obs I si w)
+    | EvForget si => fst (scorer_forget si w)
     end.
   Definition reach (fs : list fname) (evs : list rev) : rwld := fold_left run_rev evs (init_w robs I fs).
 
@@ -600,7 +602,7 @@ Section Reach.
 
   Lemma run_rev_RI w e : RI w -> RI (run_rev w e).
   Proof.
-    intros Hri. pose proof Hri as [Hi Hw Ho]. destruct e as [r| | |k h|si|r dr|si]; cbn [run_rev].
+    intros Hri. pose proof Hri as [Hi Hw Ho]. destruct e as [r| | |k h|si|r dr|si|si]; cbn [run_rev].
     - destruct (dispatch_cases robs r_update I r w) as [[e He]|(x & o & row & Ha & He)]; rewrite He; simpl.
       + exact Hri.
       + constructor; cbn [after core wcache filt].
@@ -623,6 +625,12 @@ Section Reach.
     - destruct (scorer_dec w si) as [(a & b & Hsi)|Hno].
       + destruct (obs_rule_is_direct w si a b 0 Hri Hsi) as (w1 & E1 & Hri1 & _). rewrite E1. exact Hri1.
       + unfold rule_mwkr_obs, rule_score_based, run_sfun, bind. rewrite (scorer_call_other si w Hno). exact Hri.
+    - unfold scorer_forget, bind, get.
+      destruct (nth_error (objs w) si) as [[h jf|h jf|a b]|] eqn:E; try exact Hri.
+      unfold set_objs, modify. cbn [fst]. constructor; cbn [core wcache filt].
+      + exact Hi.
+      + exact Hw.
+      + apply (ObsInv_set_scorer I w si a b None None Ho E); intros i Hx; discriminate.
   Qed.
 
   Theorem reach_RI fs evs : RI (reach fs evs).
